@@ -8,6 +8,7 @@ The theorems in Props/C53.lean say model = definition on every well-formed graph
 compares implementation, model and definition exactly (results are canonical: sorted lists).
 """
 import itertools
+import time
 
 from .. import core, diff
 
@@ -22,6 +23,13 @@ ASSUMPTIONS = [
     "neighbours/reachable of a vertex that is not in the graph: failure or the empty answer are both accepted (not fixed by the statement)",
     "connect_ugraph/3 is not covered (its fresh start vertex is `First-1`, outside the Nat vertex domain of the model)",
 ]
+
+IMPL_ENV = {"SV_TIMEOUT_MS": "60000"}
+
+
+def transient(r):
+    return r == "missing" or r.startswith("timeout") or r.startswith("abort") or r.startswith("skipped") or r.startswith("panic")
+
 
 # ------------------------------------------------------------------ graphs as python values
 # graph: tuple of (v, tuple(neighbours)) sorted by v
@@ -194,7 +202,9 @@ def norm_item(it):
 
 
 def make_case(cid, items):
-    impl = ["Q\t%s_u\t1\tuse_module(library(ugraphs))." % cid]
+    """one harness line per item; every line loads the library itself (cheap after the first
+    time) so that a machine restarted after a timeout/panic cannot cause spurious errors."""
+    impl = []
     model = []
     for k, it in enumerate(items):
         goal, mops, margs, ref = item_parts(it)
@@ -203,7 +213,7 @@ def make_case(cid, items):
         it["prolog"] = goal + "."
         it["ref"] = ref
         it["mops"] = mops
-        impl.append("Q\t%s\t2\t%s." % (lid, goal))
+        impl.append("Q\t%s\t2\tuse_module(library(ugraphs)),%s." % (lid, goal))
         for j, mo in enumerate(mops):
             model.append("%s\t%s_m%d\t%s" % (mo, lid, j, margs))
     return {"id": cid, "items": items, "impl": impl, "model": model}
@@ -484,11 +494,22 @@ def run(ctx):
             cases += ex
             small = [g for g in graphs if len(g) <= 2]
             cases += gen_pairs(rng, small, small, "p")
-            cases += gen_pairs(rng, graphs, graphs, "q", sample=60000)
+            cases += gen_pairs(rng, graphs, graphs, "q", sample=20000)
             cases += gen_vetu_exhaustive(rng, "v")
-            cases += gen_quick(rng, 6000)
+            cases += gen_quick(rng, 3000)
             exhaustive = True
-    impl, model = diff.run_cases(cases)
+    t0 = time.time()
+    impl, model = diff.run_cases(cases, impl_env=IMPL_ENV)
+    # a query that hit the harness watchdog (or lost its machine) under machine load is run again,
+    # alone and sequentially, before it is judged; a second timeout is reported
+    flaky = [it for c in cases for it in c["items"] if transient(impl.get(it["id"], "missing"))]
+    retried = len(flaky)
+    if flaky:
+        rc = [make_case("y%d" % i, [norm_item(it)]) for i, it in enumerate(flaky[:2000])]
+        impl2, _ = diff.run_cases([{"id": c["id"], "impl": c["impl"]} for c in rc], impl_env=IMPL_ENV, parallel=False)
+        for it, c in zip(flaky, rc):
+            impl[it["id"]] = impl2.get(c["items"][0]["id"], "missing")
+    core.log("[C53] correspondence run: %d cases, %.1fs, %d retried" % (len(cases), time.time() - t0, retried))
     findings, agree, total = [], 0, 0
     distinct = set()
     per_op, known_shape = {}, {}
@@ -537,12 +558,13 @@ def run(ctx):
                 "single edges over {1..4}^2) + 600 sampled pairs for compose/ugraph_union + 700 random graphs with <=7 vertices labelled 0..9 "
                 "(45% DAGs, rest arbitrary digraphs with loops and cycles) with random list arguments over 0..10 (unsorted, duplicates, absent "
                 "vertices below/between/above the keys); thorough: the same exhaustively for <=3 vertices (567 graphs), all pairs of <=2-vertex "
-                "graphs and 60000 sampled pairs for the binary operations, all 4096 (vertex subset, edge subset) inputs of "
-                "vertices_edges_to_ugraph over {1,2,3}, 6000 random graphs. non-trivial = the graph has an edge and the list argument is "
+                "graphs and 20000 sampled pairs for the binary operations, all 4096 (vertex subset, edge subset) inputs of "
+                "vertices_edges_to_ugraph over {1,2,3}, 3000 random graphs. non-trivial = the graph has an edge and the list argument is "
                 "non-empty; distinct by query text",
         "samples": samples,
         "traces_validated_against_impl": agree,
         "disagreements_checked": total - agree,
+        "retried_after_timeout": retried,
         "per_operation": per_op,
         "graph_size_histogram": {str(k): v for k, v in sorted(sizes.items())},
         "branches_hit": branches,
